@@ -241,6 +241,69 @@ def sym_sorter(vc):
         expect_no_raise_or_same(vc, fk, paths)
 
 
+def sym_sort_func(vc):
+    """sort_rows(key, ..).func: every selected resource is handed to _sorter with THE key calculator of `key` -- numbers get the
+    order-preserving encoding whatever the resource's schema declares (or does not declare) for the field --, and with the
+    reverse / batch_size the step was built with; unselected resources pass as they are"""
+    import z3
+    from pyvc.api import real_function, LoopSpec, check, cover, yields_of, GenObj, PyDict, PyList, SV, term, StrS, sym_int
+    from contracts.common import mk_package2, fn_named, same_stream
+    fk = vc.under_contract(P + 'sort_rows.py', ['sort_rows', 'func'])
+    vc.under_contract(P + 'sort_rows.py', ['sort_rows'])
+    D = z3.Float64()
+    for spec_kind in ('list', 'format'):
+        def thunk(it, spec_kind=spec_kind):
+            install_bitarray(it)
+            SR = real_function(it, 'dataflows.processors.sort_rows', 'sort_rows')
+            KC = real_function(it, 'dataflows.processors.sort_rows', 'KeyCalc')
+            spec = PyList(['k']) if spec_kind == 'list' else '{k}'
+            bs = sym_int(it, 'batch_size')
+            func = it.call(SR, [spec], dict(reverse=True, batch_size=bs))
+            package = mk_package2(it)
+            x = z3.FP('x', D)
+            it.assume(z3.Not(z3.fpIsNaN(x)))
+            tag = '[%s]' % spec_kind
+
+            def at_end(it, env, r, events):
+                ys = yields_of(events)
+                if len(ys) != 1 or not isinstance(ys[0].obj, GenObj) or not fn_named(ys[0].obj, '_sorter'):
+                    check(it, 'selected-resource-handed-to-the-sorter' + tag, False)
+                    return
+                g = ys[0].obj
+                check(it, 'sorter-gets-the-resource-and-the-options-of-the-step' + tag, len(g.args) == 4 and g.args[0] is r and g.args[2] is True
+                      and g.args[3] is bs)
+                want = it.call(it.call(KC, [spec]), [PyDict({'k': SV(x)})])
+                got = it.call(g.args[1], [PyDict({'k': SV(x)})])
+                check(it, 'numbers-are-keyed-as-numbers-whatever-the-schema-declares' + tag,
+                      z3.simplify(term(got, StrS)) == z3.simplify(term(want, StrS)))
+                cover(it, 'iter-reachable' + tag)
+            it.loops['func#L0'] = LoopSpec(at_start=lambda it, env, r: r, at_end=at_end)
+            it.run_generator(it.call(func, [package]))
+        paths = vc.explore(fk, thunk, min_paths=2)
+        expect_no_raise_or_same(vc, fk, paths)
+
+
+def nat_sort_undeclared_and_typed(h):
+    """bounded: numeric key fields the schema does not declare as integer / number -- a value computed by an earlier row function
+    (not in the schema at all), a field typed `year`, a field typed `any` -- still sort numerically"""
+    from dataflows import Flow, sort_rows, set_type
+    vals = [1000, 120, 9, -5, 1200, 800, -40, 0]
+
+    def add_n(row):
+        row['n'] = row['v'] * 1
+    for key in ('{n}', ['n']):
+        for reverse in (False, True):
+            got = h.run(lambda: Flow([{'v': v, 'i': i} for i, v in enumerate(vals)], add_n, sort_rows(key, reverse=reverse)).results(on_error=None)[0][0])
+            want = sorted(vals, reverse=reverse)
+            h.check(got[0] == 'ok' and [r['n'] for r in got[1]] == want, P + 'sort_rows.py::KeyCalc', ('undeclared computed field', key, reverse), want,
+                    [r.get('n') for r in got[1]] if got[0] == 'ok' else got[:2])
+    years = [2001, 999, 1200, 30, 1999]
+    for typ in ('year', 'any', 'integer'):
+        got = h.run(lambda: Flow([{'y': v} for v in years], set_type('y', type=typ), sort_rows('{y}')).results(on_error=None)[0][0])
+        h.check(got[0] == 'ok' and [int(r['y']) for r in got[1]] == sorted(years), P + 'sort_rows.py::KeyCalc', ('field typed %s' % typ,), sorted(years),
+                [r.get('y') for r in got[1]] if got[0] == 'ok' else got[:2])
+
+
 def lib_vals():
     from pyvc.api import ValS
     return ValS
@@ -427,5 +490,6 @@ ITEMS = [
     Item('KeyCalc', sym_keycalc, [('differential', nat_sort), ('several-tables', nat_sort_several_tables)], P + 'sort_rows.py::KeyCalc.__calculator.func',
          replay=replay_keycalc),
     Item('_sorter', sym_sorter, [], P + 'sort_rows.py::_sorter'),
+    Item('sort_rows.func', sym_sort_func, [('undeclared-and-typed-fields', nat_sort_undeclared_and_typed)], P + 'sort_rows.py::sort_rows.func'),
     Item('string-lemmas', sym_string_lemmas, [('findings', nat_sort_findings)], P + 'sort_rows.py::_sorter.process'),
 ]
